@@ -241,9 +241,23 @@ func c16Diff(d *corazawaf.VerifRuleDump, want *slDesc) string {
 	for _, a := range d.Actions {
 		got[strings.ToLower(a)] = true
 	}
+	// of several disruptive actions only the last one written takes effect, wherever the others stand in the list
+	disruptive := map[string]bool{"deny": true, "drop": true, "pass": true, "block": true, "allow": true, "redirect": true, "proxy": true}
+	lastDisruptive := ""
+	for _, a := range want.Acts {
+		if disruptive[a.Name] {
+			lastDisruptive = a.Name
+		}
+	}
 	for f := range flags {
 		if f == "block" {
 			continue // block stands for the inherited disruptive action and is replaced by it
+		}
+		if disruptive[f] && f != lastDisruptive {
+			if got[f] && f != "pass" { // (pass may also come from the default actions)
+				return fmt.Sprintf("disruptive action %s was written before %s and must be replaced by it, yet it is among the compiled actions %v", f, lastDisruptive, d.Actions)
+			}
+			continue
 		}
 		if !got[f] {
 			return fmt.Sprintf("action %s was written but is not among the compiled actions %v", f, d.Actions)
